@@ -34,8 +34,55 @@ def matrix(ctx):
         dict(label="cross/integers-1+2-3+0/ramped-field", dev="cross", currents={"source": 1.0, "drain": 2.0, "top": -3.0, "bottom": 0.0}, field=0.5,
              field_ramp=0.2, adaptive=True, units=nm),
         dict(label="bar/unbiased-terminals/static-field", dev="bar", currents={"source": 0.0, "drain": 0.0}, field=0.6, adaptive=True),
+        # one terminal carries no current (given as 0 or omitted from the dict) while the others do; which one is permuted.
+        # (terminals are visited in the order of their length: 'top'/'bottom' are the short ones, 'source'/'drain' the long ones)
+        dict(label="tee/short-terminal-zero", dev="tee", currents={"source": 3.0, "drain": -3.0, "top": 0.0}, field=0.2, adaptive=False, solve_time=0.2),
+        dict(label="tee/short-terminal-omitted", dev="tee", currents={"source": 2.0, "drain": -2.0}, adaptive=True, solve_time=0.3),
+        dict(label="tee/long-terminal-zero", dev="tee", currents={"source": 0.0, "drain": 2.0, "top": -2.0}, adaptive=False, solve_time=0.2),
+        dict(label="cross/two-short-terminals-omitted", dev="cross", currents={"source": 4.0, "drain": -4.0}, field=0.3, adaptive=False, solve_time=0.2),
+        dict(label="cross/one-short-zero-one-long-omitted", dev="cross", currents={"source": 2.0, "top": 0.0, "bottom": -2.0}, adaptive=True, solve_time=0.3),
+        # the short terminal's current is held constant while two other terminals ramp
+        dict(label="tee/short-terminal-constant/others-ramp", dev="tee", currents={"top": -1.0, "source": 1.0, "drain": 0.0},
+             currents_ramped={"source": 3.0, "drain": -3.0}, current_ramp=0.25, adaptive=False, solve_time=0.4),
+        dict(label="cross/short-terminals-constant/long-ramp", dev="cross", currents={"top": -1.0, "bottom": 1.0},
+             currents_ramped={"source": 4.0, "drain": -4.0}, current_ramp=0.2, adaptive=True, solve_time=0.4),
+        dict(label="cross/long-constant/short-ramp", dev="cross", currents={"source": 2.0, "drain": -2.0},
+             currents_ramped={"top": 1.0, "bottom": -1.0}, current_ramp=0.2, adaptive=False, solve_time=0.3),
+        # unit choices for which the reduction to base units matters in the current scale
+        dict(label="tee/units-um-mT-mA", dev="tee", currents={"source": 0.004, "drain": -0.002, "top": -0.002}, field=0.3, adaptive=False, solve_time=0.2,
+             units=dict(length_units="um", scale=1.0, field_units="mT", current_units="mA", fs=1.0, cs=1.0), currents_den=1000000),
+        dict(label="bar/units-nm-uT-uA", dev="bar", currents={"source": 3.0, "drain": -3.0}, field=0.3, adaptive=True,
+             units=dict(length_units="nm", scale=1000.0, field_units="uT", current_units="uA", fs=1000.0, cs=1.0), currents_den=1000),
+        dict(label="cross/units-nm-mT-mA", dev="cross", currents={"source": 0.004, "drain": -0.002, "top": -0.001, "bottom": -0.001}, adaptive=False,
+             solve_time=0.2, units=dict(length_units="nm", scale=1000.0, field_units="mT", current_units="mA", fs=1.0, cs=1.0), currents_den=1000000),
+        # histories on ONE Device object: mesh, solve, re-mesh / move / rotate / reflect, solve again (fresh devices built inside the run)
+        dict(label="history/tee/remesh-1.0-to-0.3", func="history_run", history="remesh", dev="tee", mel=1.0, mel2=0.3,
+             currents={"source": 4.0, "drain": -2.0, "top": -2.0}, adaptive=False, solve_time=0.1, k=3),
+        dict(label="history/bar/translate-in-place", func="history_run", history="translate", dev="bar", mel=0.8,
+             currents={"source": 3.0, "drain": -3.0}, field=0.3, adaptive=False, solve_time=0.15, k=3),
+        dict(label="history/tee/rotate-90-then-mesh", func="history_run", history="rotate", dev="tee", mel=0.8, mel2=0.6,
+             currents={"source": 4.0, "drain": -2.0, "top": -2.0}, adaptive=False, solve_time=0.15, k=3),
     ]
     if not ctx.quick:
+        runs += [
+            dict(label="history/cross/reflect-and-stretch-then-mesh", func="history_run", history="reflect", dev="cross", mel=0.8, mel2=0.6,
+                 currents={"source": 4.0, "drain": -2.0, "top": -1.0, "bottom": -1.0}, adaptive=True, solve_time=0.2, k=3),
+            dict(label="history/tee/remesh-rotate-terminal_info-remesh", func="history_run", history="remesh-rotate-remesh", dev="tee", mel=1.0, mel2=0.3,
+                 currents={"source": 2.0, "drain": 1.0, "top": -3.0}, adaptive=False, solve_time=0.1, k=3),
+            dict(label="history/cross/remesh-smoothed/first-solve-unbiased", func="history_run", history="remesh", dev="cross", mel=1.0, mel2=0.3, smooth2=10,
+                 currents_first={"source": 0.0, "drain": 0.0}, currents={"source": 4.0, "drain": -2.0, "top": -1.0, "bottom": -1.0}, adaptive=True,
+                 solve_time=0.15, k=3),
+            dict(label="history/bar/remesh-1.0-to-0.3/ramped-field", func="history_run", history="remesh", dev="bar", mel=1.0, mel2=0.3,
+                 currents={"source": 3.0, "drain": -3.0}, field=0.3, field_ramp=0.3, adaptive=True, dt=2.0 ** -8, solve_time=0.1, k=3),
+        ]
+        for zero in ("source", "drain", "top", "bottom"):
+            others = [n for n in ("source", "drain", "top", "bottom") if n != zero]
+            cur = {others[0]: 3.0, others[1]: -1.0, others[2]: -2.0}
+            runs.append(dict(label=f"cross/{zero}-omitted", dev="cross", currents=dict(cur), adaptive=False, solve_time=0.2))
+            runs.append(dict(label=f"cross/{zero}-zero/others-ramp", dev="cross", currents=dict(cur, **{zero: 0.0}), current_ramp=0.2, adaptive=True,
+                             solve_time=0.3))
+            runs.append(dict(label=f"cross/{zero}-constant/others-ramp", dev="cross", currents={zero: 1.0, others[0]: -1.0},
+                             currents_ramped={others[1]: 2.0, others[2]: -2.0}, current_ramp=0.2, adaptive=False, solve_time=0.3))
         rnd = random.Random(ctx.seed)
         cur = {"bar": [{"source": 5.0, "drain": -5.0}, {"source": 0.7, "drain": -0.7}],
                "barhole": [{"source": 6.0, "drain": -6.0}, {"source": 1.3, "drain": -1.3}],
@@ -60,7 +107,7 @@ def matrix(ctx):
         a.update(length_units=u["length_units"], scale=u["scale"], field_units=u["field_units"], current_units=u["current_units"])
         a["field"] = a.get("field", 0.0) * u["fs"]
         a["currents"] = {k: v * u["cs"] for k, v in a["currents"].items()}
-        a["currents_den"] = 1000 if u["cs"] == 1.0 else 1
+        a.setdefault("currents_den", 1000 if u["cs"] == 1.0 else 1)
         out.append(a)
     return out
 
@@ -94,7 +141,7 @@ def run(ctx):
             for c, cu in zip(chunks, ["uA", "mA", "uA", "nA", "uA", "uA"])]
     # 3. natural runs
     runs = matrix(ctx)
-    jobs += [("call", dict(module="harness.runobs", func="conservation_run", args=a)) for a in runs]
+    jobs += [("call", dict(module="harness.runobs", func=a.get("func", "conservation_run"), args=a)) for a in runs]
     res = rf.replay_all(ctx, jobs)
     ctor_traces = [t for chunk in res[:6] for t in chunk]
     run_traces = res[6:]
